@@ -88,7 +88,13 @@ def gen_history(rnd, seed):
             ops.append(['targets', [True] * 6 if rnd.random() < 0.35 else [rnd.random() < 0.6 for _ in range(6)]])
         elif u < 0.93:
             ops.append(['ignores', rnd.choice([{'/cells/*/outputs': True}, {'/cells/*/metadata': ['collapsed', 'tags']}, {'/metadata': True, '/cells/*': ['id']},
-                                               {'/cells/*/outputs': False}])])
+                                               {'/cells/*/outputs': False}, {'/cells/*/metadata': True}, {'/cells/*/metadata': ['collapsed']},
+                                               {'/cells/*/metadata': ['tags']}, {'/cells/*/metadata': ['scrolled']}, {'/metadata': ['kernelspec']}])])
+            if rnd.random() < 0.5:
+                # the same path configured again (replaced by another value, or simply re-applied as a server would per request)
+                again = rnd.choice([{'/cells/*/metadata': ['collapsed']}, {'/cells/*/metadata': ['tags']}, ops[-1][1]])
+                for _ in range(rnd.choice([1, 1, 3])):
+                    ops.append(['ignores', again])
         else:
             ops.append(['reset'])
     ops.append(['diffk', seed, rnd.randrange(12)])
@@ -102,7 +108,21 @@ def in_force(ops, i):
     for j in range(i):
         if ops[j][0] in ('reset', 'targets'):
             start = j
-    return [o for o in ops[start:i] if o[0] in ('reset', 'targets', 'ignores')]
+    eff = [o for o in ops[start:i] if o[0] in ('reset', 'targets', 'ignores')]
+    # set_notebook_diff_ignores configures path by path: a later call replaces what an earlier one said about the same path and leaves
+    # the other paths alone.  The options in force are therefore ONE mapping (later entries win), installed once in the fresh process.
+    out, merged = [], None
+    for o in eff:
+        if o[0] == 'ignores':
+            merged = dict(merged or {}, **o[1])
+        else:
+            if merged is not None:
+                out.append(['ignores', merged])
+                merged = None
+            out.append(o)
+    if merged is not None:
+        out.append(['ignores', merged])
+    return out
 
 
 def _history_job(job):
